@@ -603,6 +603,8 @@ package router
 
 // The middleware extension points are unused in this repository (nothing appends to them).
 //@ axiom len(MiddlewarePreProcessors) == 0 && len(MiddlewarePostProcessors) == 0
+// package-level pools are set by their initialisers (pool.NewBytesBufPool never returns nil)
+//@ axiom bufPool != nil
 
 //@ func (r *router) handleServerReq(m *dnsmsg.Msg, rc *RequestContext)
 //@   props C03 C01
